@@ -63,6 +63,14 @@ Lemma violations_defined f n :
   f_evcount f = Some n -> violations f = Some (violations_n f n).
 Proof. intros H. unfold violations, lends. rewrite H. reflexivity. Qed.
 
+Lemma length_is_event_count f n :
+  f_evcount f = Some n ->
+  lends f = Some n /\ violations f = Some (violations_n f n).
+Proof.
+  intros H. split; [unfold lends; rewrite H; reflexivity|].
+  apply violations_defined. exact H.
+Qed.
+
 Ltac in_viol :=
   unfold violations_n; repeat rewrite in_app_iff; tauto.
 
